@@ -4,7 +4,7 @@ From VF Require Import Lifecycle.Pool Lifecycle.PoolProofs Lifecycle.Fin Lifecyc
 Import ListNotations.
 
 Definition all_hpc (f : hpc -> bool) : bool :=
-  f HIdle && f H_chk && f H_spawn && f H_setrun && f H_rel && f P_chk && f P_wait && f P_close
+  f HIdle && f H_chk && f H_chkF && f H_spawn && f H_setrun && f H_rel && f P_chk && f P_wait && f P_close
   && f P_join && f P_clear && f P_reset && f P_rel.
 Lemma all_hpc_ok f : all_hpc f = true -> forall x, f x = true.
 Proof. unfold all_hpc. intros H x. repeat (apply andb_prop in H; destruct H as [H ?]). destruct x; assumption. Qed.
@@ -17,9 +17,9 @@ Definition all_hsk (f : hsk -> bool) : bool := f HSNone && f HSOpen && f HSClose
 Lemma all_hsk_ok f : all_hsk f = true -> forall x, f x = true.
 Proof. unfold all_hsk. intros H x. repeat (apply andb_prop in H; destruct H as [H ?]). destruct x; assumption. Qed.
 
-Definition all_hop (f : hop -> bool) : bool := f HStart && f HStop.
+Definition all_hop (f : hop -> bool) : bool := f HStart && f HStop && f HStartF.
 Lemma all_hop_ok f : all_hop f = true -> forall x, f x = true.
-Proof. unfold all_hop. intros H x. apply andb_prop in H. destruct H. destruct x; assumption. Qed.
+Proof. unfold all_hop. intros H x. repeat (apply andb_prop in H; destruct H as [H ?]). destruct x; assumption. Qed.
 
 Definition all_hglob (f : hglob -> bool) : bool :=
   all_bool (fun r => all_lk (fun l => all_bool (fun m => all_hmpc (fun t => all_hsk (fun k =>
@@ -58,7 +58,7 @@ Definition hlok (g : hglob) (me : bool) (p : hpc) : bool :=
   Bool.eqb me (hholder p) && implb me (lk_eqb (hlock g) LCaller) &&
   match p with
   | HIdle => true
-  | H_chk | P_chk => hcore g
+  | H_chk | H_chkF | P_chk => hcore g
   | H_spawn => negb (hrunning g) && negb (hmref g) && hmt_ended (hmt g) && hsock_open (hsock g) && negb (sreq g) && negb (isdown g)
   | H_setrun => negb (hrunning g) && hmref g && fresh_loop g
   | H_rel => hrunning_core g
